@@ -9,6 +9,7 @@ import itertools
 
 import numpy as np
 import z3
+from harness import pipeline as PP
 
 from symx import loader
 from symx.core import Sym, Ctx, symarray, qval, model_value, is_nan, free_vars, UF_EXP, UF_SQRT, Settings
@@ -31,7 +32,7 @@ ASSUMPTIONS = ["floats read as reals (no rounding)", "peak frequencies/amplitude
 OUTSIDE = ["more windows/frequencies than the bound", "rounding"]
 BOUNDS = {"quick": {"windows": "2-3", "frequencies": 2, "distributions": ["normal", "lognormal", "log-normal"]},
           "thorough": {"windows": "2-4", "frequencies": 3, "distributions": ["normal", "lognormal", "log-normal"]}}
-INSTANCE_TIMEOUT = {"quick": 200, "thorough": 1500}
+INSTANCE_TIMEOUT = {"quick": 200, "thorough": 700}
 DISTS = ["normal", "lognormal", "log-normal"]
 _L = None
 
@@ -117,7 +118,7 @@ def make_state(ctx, w, nf, nan_valid):
     HT = L()["hvsr_traditional"].HvsrTraditional
     frq = np.arange(1.0, nf + 1)
     amp = symarray("a", (w, nf), ctx, pos="exp")
-    h = HT.__new__(HT)
+    h = PP.shell_traditional(HT)
     h.frequency, h.amplitude, h.n_curves, h.meta = frq, amp, w, {}
     h._main_peak_frq = np.empty(w, dtype=object)
     h._main_peak_amp = np.empty(w, dtype=object)
@@ -301,8 +302,7 @@ def run_reciprocal(rep, tier, w, dist):
 
     def run(ctx):
         h, status = make_state(ctx, w, 2, False)
-        g = HT.__new__(HT)
-        g.__dict__.update(h.__dict__)
+        g = PP.shallow_twin(h)
         g._main_peak_frq = np.array([x if is_nan(x) else 1 / x for x in h._main_peak_frq], dtype=object)
         return h, g, status
 
